@@ -852,8 +852,18 @@ VIEWS = {
 }
 
 
+# document view only (the units of these types carry no images of their own, or are heading sections):
+NESTED_IMAGES = {"PptContent": ("slides", "PptSlideContent", "PptImage")}
+FLAT_IMAGES = {"DocContent": "DocImage", "DocxContent": "DocxImage", "XlsContent": "XlsImage", "OdgContent": "OpenDocumentImage",
+               "OdtContent": "OpenDocumentImage", "RtfContent": "RtfImage", "EpubContent": "EpubImage"}
+
+
 def _install_views():
     E = C14Executor
+    for cls, (lf, ecls, icls) in NESTED_IMAGES.items():
+        E.ZFIELDS[(ecls, "images")] = icls
+    for cls, icls in FLAT_IMAGES.items():
+        E.ZFIELDS[(cls, "images")] = icls
     for cls, (lf, ecls, icls, has_tables, _kw) in VIEWS.items():
         E.ZFIELDS[(ecls, "images")] = icls
         if has_tables:
@@ -906,10 +916,44 @@ def view_contracts():
     for cls in VIEWS:
         v = ViewSpec(cls)
         out.extend(_view_contracts(v))
+    for cls, (lf, ecls, icls) in NESTED_IMAGES.items():
+        VIEWS[cls] = (lf, ecls, icls, True, ())
+        try:
+            out.append(_view_contracts(ViewSpec(cls), images_only=True)[0])
+        finally:
+            del VIEWS[cls]
+    for cls, icls in FLAT_IMAGES.items():
+        out.append(_flat_images_contract(cls, icls))
     return out
 
 
-def _view_contracts(v: ViewSpec):
+def _flat_images_contract(cls, icls):
+    """iterate_images() of a type with one document-level image list yields exactly that list, in order."""
+    IS = z3.SeqSort(ext_sort(icls))
+
+    def whole(me):
+        return X.zfield(cls, "images", icls)(me)
+
+    def req(c):
+        c.ex.yz_init(c.st, {"img": z3.Empty(IS)})
+        c.ex.yz_init(c.entry, {"img": z3.Empty(IS)})
+        return z3.BoolVal(True)
+
+    def inv(lc):
+        t = lc.ex.zterm(lc.st, lc.seq) if lc.seq is not None else None
+        if t is None:
+            return z3.BoolVal(False)
+        lc.st.assume(prefix_ext(t, lc.i))
+        return z3.And(lc.st.ghost["YZ"]["img"] == z3.SubSeq(t, 0, lc.i), t == whole(lc.entry.lookup("self").t))
+    tgt = f"{DT}::{cls}.iterate_images"
+    C14Executor.VIEW[tgt] = "images"
+    return FnContract(target=tgt, params=[("self", p_ext(cls))], generator=True, requires=req,
+                      ensures=[("document-images-are-the-image-list-in-order", lambda c: c.st.ghost["YZ"]["img"] == whole(c.args["self"].t))],
+                      raises=[], loops={0: LoopSpec(inv=inv, label="images")},
+                      note="iterate_images() yields every entry of self.images, in order, nothing else")
+
+
+def _view_contracts(v: ViewSpec, images_only=False):
     cls = v.cls
     params = [("self", p_ext(cls))]
 
@@ -948,6 +992,8 @@ def _view_contracts(v: ViewSpec):
         raises=[], loops={0: LoopSpec(inv=img_outer, label="elements"), 1: LoopSpec(inv=img_inner, label="images-of-element")},
         note="iterate_images() yields concat(e.images for e in self.<elements>)")]
     C14Executor.VIEW[out[-1].target] = "images"
+    if images_only:
+        return out
 
     # ---- iterate_tables ----
     def tab_outer(lc):
@@ -1043,7 +1089,7 @@ def lemmas():
     out = [("C14/image_utils.py::jpeg-chain/lemma#no-frame-header-in-the-last-9-bytes",
             [N >= 0, X.byte_range(D), o >= 0, j.defn(o), ih(o + 1), ih(o + 2 + L)], ih(o))]
     jj = z3.Int("j")
-    for sort in sorted({v[2] for v in VIEWS.values()} | {TABLE}):
+    for sort in sorted({v[2] for v in VIEWS.values()} | {v[2] for v in NESTED_IMAGES.values()} | set(FLAT_IMAGES.values()) | {TABLE}):
         t = z3.Const("t", z3.SeqSort(ext_sort(sort)))
         parts = prefix_ext(t, jj).children()
         out.append((f"C14/data_types.py::sequences/lemma#prefix-extension-{sort.strip('_')}", [], parts[0]))
